@@ -163,6 +163,8 @@ class Labware:
             raise ValueError("initial_volume cannot be negative")
         if np.any(initial_volumes > max_volume):
             raise ValueError("initial_volume cannot be above max_volume")
+        if np.any(np.isinf(initial_volumes)):
+            raise ValueError("initial_volume cannot be infinite")
 
         # initialize properties
         self.name = name
